@@ -44,6 +44,7 @@ type c11Op struct {
 	QoS    byte   `json:"q,omitempty"`
 	How    string `json:"how,omitempty"` // drop: disconnect0 | takeover_clean | terminate | terminate_offline | expire
 	Topic  string `json:"t,omitempty"`
+	By     int    `json:"by,omitempty"` // pub: 0 = Publisher API, k>0 = client k-1 publishes on its own connection (if online)
 }
 
 type c11Scen struct {
@@ -87,7 +88,11 @@ func genC11(t *rapid.T) c11Scen {
 		case k == 12:
 			s.Ops = append(s.Ops, c11Op{Op: "offline", Client: cl})
 		default:
-			s.Ops = append(s.Ops, c11Op{Op: "pub", Topic: rapid.SampledFrom(c11Topics).Draw(t, "topic"), QoS: byte(rapid.IntRange(0, 2).Draw(t, "qos"))})
+			by := 0
+			if rapid.IntRange(0, 2).Draw(t, "byclient") == 0 {
+				by = 1 + rapid.IntRange(0, s.Clients-1).Draw(t, "by")
+			}
+			s.Ops = append(s.Ops, c11Op{Op: "pub", Topic: rapid.SampledFrom(c11Topics).Draw(t, "topic"), QoS: byte(rapid.IntRange(0, 2).Draw(t, "qos")), By: by})
 		}
 	}
 	return s
@@ -406,7 +411,33 @@ func runC11(s c11Scen, c *ev.Case) *ev.Violation {
 				}
 			}
 			pubs = append(pubs, rec)
-			b.Srv.Publisher().Publish(&gmqtt.Message{Topic: op.Topic, QoS: op.QoS, Payload: []byte(uid)})
+			if op.By > 0 && op.By-1 < s.Clients && online[op.By-1] {
+				// a member (or a plain subscriber) publishes itself: it is still a candidate of its own groups
+				pc := cur[op.By-1]
+				pk := &mw.Packet{Topic: op.Topic, QoS: op.QoS, Payload: []byte(uid)}
+				if op.QoS > 0 {
+					pid++
+					pk.PacketID = pid
+				}
+				if _, err := pc.Publish(pk); err != nil {
+					return ev.Violf("C11.publish-ack", "client %d: PUBLISH %q QoS %d not acknowledged: %v", op.By-1, op.Topic, op.QoS, err)
+				}
+				if op.QoS == 0 {
+					if err := pc.Ping(fixture.DefaultWait); err != nil { // the QoS0 publish has been handled
+						return ev.Violf("C11.publish-ack", "client %d: no PINGRESP after a QoS0 publish: %v", op.By-1, err)
+					}
+				}
+				for _, m := range rec.members {
+					if _, ok := m[op.By-1]; ok {
+						c.Label("publisher_is_group_member")
+						if len(m) == 1 {
+							c.Label("publisher_is_only_member")
+						}
+					}
+				}
+			} else {
+				b.Srv.Publisher().Publish(&gmqtt.Message{Topic: op.Topic, QoS: op.QoS, Payload: []byte(uid)})
+			}
 		}
 	}
 	// drain: bring every offline member back, then barrier
